@@ -5,7 +5,7 @@ from __future__ import annotations
 import ast
 import re
 
-from ..core import call_name, seq, FuncInfo, ClassInfo, Program, const_value, dotted, strip_docstring, unparse, walk_no_nested
+from ..core import inline_locals, call_name, seq, FuncInfo, ClassInfo, Program, const_value, dotted, strip_docstring, unparse, walk_no_nested
 from ..report import Ctx
 
 #: old -> new pairs whose names do not coincide after normalisation and whose
@@ -406,9 +406,9 @@ def run(ctx: Ctx) -> None:
             ctx.add('C20.D6', construct, None, f, f'obsolete_params is not a dict literal the rule can read: {unparse(table)[:60]}', detail=unparse(table))
             continue
         params = set(f.params())
-        extra = set()
+        extra, extra_complete = set(), True
         if f.node.args.kwarg is not None:
-            extra = _default_parameter_names(prog)
+            extra, extra_complete = _default_parameter_names(prog)
         for k, v in zip(table.keys, table.values):
             try:
                 old, new = const_value(k), const_value(v)
@@ -427,6 +427,10 @@ def run(ctx: Ctx) -> None:
                 msg += f': {new!r} is not a parameter of {f.qualname}'
             elif not same:
                 msg += ': old and new keyword do not name the same parameter'
+            if not ok and not extra_complete:
+                # the function takes **kwargs and the list of the names it accepts that way is not read completely
+                ctx.add('C20.D6', f'{construct}[{old}]', None, f, msg + ' that the rule knows of (the table of the default parameters is not read completely)', detail=f'{old}->{new}')
+                continue
             ctx.add('C20.D6', f'{construct}[{old}]', ok and same, f, msg, detail=f'{old}->{new}', positive=True)
     ctx.floor('C20.D6', 25)
 
@@ -448,18 +452,35 @@ def _bound_once(module, ref: ast.expr) -> bool:
     return n_store == 1
 
 
-def _default_parameter_names(prog: Program) -> set[str]:
+def _default_parameter_names(prog: Program) -> tuple[set[str], bool]:
+    """(the names of the default parameters, whether every entry of the table was read): the field `name` of each
+    ParameterTuple(...) of all_parameters_tuple, given by keyword or at the position of the field in the NamedTuple"""
     f = prog.func('default_parameters', 'all_parameters_tuple')
-    out = set()
+    fields = None
+    for c in ast.walk(f.module.tree):
+        if isinstance(c, ast.ClassDef) and c.name == 'ParameterTuple':
+            fields = [st.target.id for st in c.body if isinstance(st, ast.AnnAssign) and isinstance(st.target, ast.Name)]
+    pos = fields.index('name') if fields and 'name' in fields else None
+    out, complete, n = set(), True, 0
     for c in ast.walk(f.node):
         if isinstance(c, ast.Call) and (dotted(c.func) or '').endswith('ParameterTuple'):
-            for k in c.keywords:
-                if k.arg == 'name':
-                    try:
-                        out.add(const_value(k.value))
-                    except ValueError:
-                        pass
-    return out
+            n += 1
+            v = next((k.value for k in c.keywords if k.arg == 'name'), None)
+            if v is None and pos is not None and len(c.args) > pos and not any(isinstance(a, ast.Starred) for a in c.args[:pos + 1]):
+                v = c.args[pos]
+            try:
+                if v is None:
+                    raise ValueError
+                out.add(const_value(inline_locals(f.node, v)) if not isinstance(v, ast.Constant) else const_value(v))
+            except ValueError:
+                complete = False  # an entry whose name is not a literal (or comes from a ** / * argument)
+    # the table is the literal tuple the function returns; anything else (entries appended, a comprehension) is not read completely
+    rets = [r for r in walk_no_nested(f.node) if isinstance(r, ast.Return)]
+    if n == 0 or len(rets) != 1 or not isinstance(inline_locals(f.node, rets[0].value) if rets[0].value is not None else None, (ast.Tuple, ast.List)):
+        complete = False
+    elif any(not (isinstance(e, ast.Call) and (dotted(e.func) or '').endswith('ParameterTuple')) for e in inline_locals(f.node, rets[0].value).elts):
+        complete = False
+    return out, complete
 
 
 def _check_param_wrapper(ctx: Ctx) -> None:
@@ -537,15 +558,35 @@ def _check_param_wrapper(ctx: Ctx) -> None:
                     for st in iff.body:
                         if isinstance(st, ast.Assign) and unparse(st.value) == f'{table}[{nm}]':
                             new_var = unparse(st.targets[0])
-                    stores = [unparse(n) for n in ast.walk(iff) if isinstance(n, ast.Assign) and unparse(n.targets[0]).startswith(acc + '[')]
+                    stores = [unparse(n) for n in ast.walk(iff) if (isinstance(n, ast.Assign) and unparse(n.targets[0]).startswith(acc + '[')) or
+                              (isinstance(n, ast.Expr) and isinstance(n.value, ast.Call) and isinstance(n.value.func, ast.Attribute) and unparse(n.value.func.value) == acc and n.value.func.attr in ('update', '__setitem__', 'setdefault'))]
                     new_txt = f'{table}[{nm}]'
                     if new_var is not None and sum(1 for x in ast.walk(wrapper.node) if isinstance(x, ast.Name) and x.id == new_var and isinstance(x.ctx, (ast.Store, ast.Del))) != 1:
                         new_var = None  # rebound: the local does not name the new keyword everywhere
                     new_names = {new_txt, f'{table}.get({nm})'} | ({new_var} if new_var else set())
 
                     def is_store(st_) -> bool:
-                        return isinstance(st_, ast.Assign) and len(st_.targets) == 1 and isinstance(t_ := st_.targets[0], ast.Subscript) and unparse(t_.value) == acc \
-                            and unparse(t_.slice) in new_names and unparse(st_.value) == val
+                        """acc[new] = value, or the same written acc.update({new: value}) / acc.__setitem__(new, value)"""
+                        if isinstance(st_, ast.Assign) and len(st_.targets) == 1 and isinstance(t_ := st_.targets[0], ast.Subscript) and unparse(t_.value) == acc \
+                                and unparse(t_.slice) in new_names and unparse(st_.value) == val:
+                            return True
+                        c_ = st_.value if isinstance(st_, ast.Expr) else None
+                        if isinstance(c_, ast.Call) and isinstance(c_.func, ast.Attribute) and unparse(c_.func.value) == acc and not c_.keywords:
+                            if c_.func.attr == 'update' and len(c_.args) == 1 and isinstance(d_ := c_.args[0], ast.Dict) and len(d_.keys) == 1 and d_.keys[0] is not None:
+                                return unparse(d_.keys[0]) in new_names and unparse(d_.values[0]) == val
+                            if c_.func.attr == '__setitem__' and len(c_.args) == 2:
+                                return unparse(c_.args[0]) in new_names and unparse(c_.args[1]) == val
+                        return False
+
+                    def reads_only(st_) -> bool:
+                        """a statement that cannot change what is forwarded: a warning / log message, pass, a string"""
+                        if isinstance(st_, ast.Pass) or (isinstance(st_, ast.Expr) and isinstance(st_.value, ast.Constant)):
+                            return True
+                        if isinstance(st_, ast.Expr) and isinstance(st_.value, ast.Call):
+                            d_ = dotted(st_.value.func) or ''
+                            if d_ in ('warnings.warn', 'warn', 'print', 'issue_deprecation_warning') or d_.split('.')[0] in ('logger', 'logging'):
+                                return not any(isinstance(x, (ast.NamedExpr, ast.Await, ast.Yield, ast.YieldFrom)) for x in ast.walk(st_))
+                        return False
 
                     if not any(is_store(n) for n in ast.walk(iff)):
                         problems.append('the value of an obsolete keyword is not stored under its new name')
@@ -608,6 +649,15 @@ def _check_param_wrapper(ctx: Ctx) -> None:
                                 states = nxt
                             elif isinstance(st_, (ast.For, ast.While, ast.Try, ast.With, ast.Match)):
                                 states = [(sd, False, w) for sd, su, w in states]  # not followed
+                            elif isinstance(st_, ast.Assign) and new_var is not None and len(st_.targets) == 1 and unparse(st_.targets[0]) == new_var and unparse(st_.value) in (new_txt, f'{table}.get({nm})'):
+                                pass  # the (only) definition of the local that names the new keyword
+                            elif isinstance(st_, ast.Assign) and len(st_.targets) == 1 and isinstance(st_.targets[0], ast.Subscript) and unparse(st_.targets[0].value) == acc and unparse(st_.targets[0].slice) == nm \
+                                    and not any(isinstance(x, ast.Name) and x.id == nm and isinstance(x.ctx, (ast.Store, ast.Del)) for x in ast.walk(iff)):
+                                pass  # a store under the OLD name (the loop variable itself): not the store under the new one
+                            elif not reads_only(st_) and ({acc, val, nm} | ({new_var} if new_var else set())) & {x.id for x in ast.walk(st_) if isinstance(x, ast.Name)}:
+                                # a statement on the accumulator, the value or the name that the rule does not understand (another way
+                                # of storing, a rebinding): what is forwarded on this path is not known
+                                states = [(sd, False, w) for sd, su, w in states]
                         return done + [(sd, su, w, True) for sd, su, w in states]
 
                     outs = paths(iff.body, False, True, '')
